@@ -37,15 +37,17 @@ func init() {
 			switch {
 			case s == "s.lock.Lock()":
 				lockIdx = i
-			case s == "s.realCapacity = n":
-				swapIdx = i
+			case strings.HasSuffix(strings.SplitN(s, " = ", 2)[0], ".realCapacity") && strings.Contains(s, " = "):
+				swapIdx = i // <recv>.realCapacity = <new value>
 			case s == "s.lock.Unlock()":
 				unlockIdx = i
 			}
 			if g, ok := st.(*ast.GoStmt); ok {
 				goIdx = i
 				b := r.Src(g.Call.Fun)
-				goOK = strings.Contains(b, "if n > old { s.sem.Release(n - old) } else if n < old { s.sem.Acquire(context.Background(), old-n) }")
+				// what the goroutine computes is tied by translation (facts_c17_ir.go: setMaxCountIR); here only:
+				// the semaphore is adjusted inside the goroutine, i.e. after the lock has been released
+				goOK = strings.Contains(b, ".sem.Release(") && strings.Contains(b, ".sem.Acquire(")
 			}
 		}
 		w.Line("/-- SetMaxCount: old/realCapacity swapped between lock.Lock and lock.Unlock, then `go` Release(n-old) / Acquire(old-n). -/")
